@@ -18,12 +18,6 @@ M = [
  ("est-balance-check-state-only", ["C01"], AB+"proofs.rs",
   "        let customer_balances_match = state_response_scalars[3] == expected_customer_balance\n            && close_state_response_scalars[3] == expected_customer_balance;",
   "        let customer_balances_match = state_response_scalars[3] == expected_customer_balance;"),
- ("est-unhash-merchant-balance-scalar", ["C01", "C12"], AB+"proofs.rs",
-  "            .with(&self.customer_balance_commitment_scalar)\n            .with(&self.merchant_balance_commitment_scalar)\n",
-  "            .with(&self.customer_balance_commitment_scalar)\n"),
- ("est-drop-context-both-sides", ["C06", "C12"], AB+"proofs.rs",
-  "            .with_bytes(&context.as_bytes())\n            .finish();\n\n        (\n            Self {\n                channel_id_commitment_scalar",
-  "            .finish();\n\n        (\n            Self {\n                channel_id_commitment_scalar"),
  # --- C02 pay verifier
  ("pay-drop-nonce-equation", ["C02"], AB+"proofs.rs",
   "                && pay_token_nonce_matches_expected\n", ""),
@@ -32,12 +26,6 @@ M = [
   "                && customer_balance_proof_verifies\n"),
  ("pay-drop-old-revlocks-match", ["C02"], AB+"proofs.rs",
   "                && old_revlocks_match\n", ""),
- ("pay-merchant-update-sign", ["C02", "C04"], AB+"proofs.rs",
-  "                + challenge.to_scalar() * public_values.amount.to_scalar();\n\n        match (",
-  "                - challenge.to_scalar() * public_values.amount.to_scalar();\n\n        match ("),
- ("pay-unhash-close-tag-scalar", ["C02", "C12"], AB+"proofs.rs",
-  "            .with(&self.old_nonce_commitment_scalar)\n            .with(&self.close_tag_commitment_scalar)\n",
-  "            .with(&self.old_nonce_commitment_scalar)\n"),
  # --- C03 customer
  ("cust-started-close-on-new-state", ["C03", "C04"], AB+"customer.rs",
   "            self.old_close_state_signature,\n            self.old_state.close_state(),",
@@ -49,20 +37,12 @@ M = [
   "        match unblinded_pay_token.verify(config, &self.state) {\n            // If so, save it and enter the `Ready` state.\n            Verified => Ok(Ready {\n                state: self.state,\n                pay_token: unblinded_pay_token,\n                close_state_signature: self.close_state_signature,\n            }),\n            Failed => Err(self),\n        }\n    }\n\n    /// Extract data used to close the channel.\n    /// This is called as part of zkAbacus.Close.\n    pub fn close(self, rng: &mut impl Rng) -> ClosingMessage {\n        ClosingMessage::new(rng, self.close_state_signature, self.state.close_state())\n    }\n\n    /// Get the [`CustomerBalance`] for this state that will result",
   "        match unblinded_pay_token.verify(config, &self.state) {\n            // If so, save it and enter the `Ready` state.\n            Verified => Ok(Ready {\n                state: self.state,\n                pay_token: unblinded_pay_token,\n                close_state_signature: self.close_state_signature,\n            }),\n            Failed if unblinded_pay_token.0.is_well_formed() && self.state.merchant_balance().is_zero() => Ok(Ready {\n                state: self.state,\n                pay_token: unblinded_pay_token,\n                close_state_signature: self.close_state_signature,\n            }),\n            Failed => Err(self),\n        }\n    }\n\n    /// Extract data used to close the channel.\n    /// This is called as part of zkAbacus.Close.\n    pub fn close(self, rng: &mut impl Rng) -> ClosingMessage {\n        ClosingMessage::new(rng, self.close_state_signature, self.state.close_state())\n    }\n\n    /// Get the [`CustomerBalance`] for this state that will result"),
  # --- C04 / C17 arithmetic
- ("balance-try-new-off-by-one", ["C04", "C17", "C15"], AB+"lib.rs",
-  "        if value > i64::MAX as u64 {", "        if value >= i64::MAX as u64 {"),
- ("merchant-apply-wrong-error", ["C04", "C17"], AB+"states.rs",
-  "        let new_value = self.0 .0 as i128 + amt.0 as i128;\n        if new_value.is_negative() {\n            Err(Error::InsufficientFunds)",
-  "        let new_value = self.0 .0 as i128 + amt.0 as i128;\n        if new_value.is_negative() {\n            Err(Error::AmountTooLarge(amt.0.unsigned_abs()))"),
  ("revert-unsigned-abs", ["C17"], AB+"lib.rs",
   "self.0.unsigned_abs()", "self.0.abs() as u64"),
  # --- C05
  ("revlock-ignore-blinding-factor", ["C05"], AB+"revlock.rs",
   "                revocation_lock_blinding_factor.0,\n                &Message::from(revocation_pair.lock.to_scalar()),",
   "                revocation_lock_blinding_factor.0,\n                &Message::from(revocation_pair.lock.to_scalar()),"),  # placeholder replaced below
- ("revpair-decode-skip-lock-compare", ["C05", "C15"], AB+"revlock.rs",
-  "        if unchecked.lock == valid_pair.lock {\n            Ok(valid_pair)\n        } else {\n            Err(Error::MismatchedPair)\n        }",
-  "        let _ = unchecked.lock;\n        Ok(valid_pair)"),
  # --- C07 / C11
  ("sig-verify-drop-well-formed", ["C07"], ZK+"pointcheval_sanders.rs",
   "        if !self.is_well_formed() {\n            return false;\n        }\n\n        // x + sum(", "        // x + sum("),
@@ -73,17 +53,8 @@ M = [
   "                .zip(msg.iter())\n                .map(|(yi, mi)| yi * mi)",
   "                .zip(msg.iter().take(N.max(2) - 1))\n                .map(|(yi, mi)| yi * mi)"),
  # --- C08
- ("sigreq-return-scalar-commitment", ["C08", "C01"], ZK+"proofs/signaturerequest.rs",
-  ".then(|| VerifiedBlindedMessage(self.commitment_proof.commitment()))",
-  ".then(|| VerifiedBlindedMessage(self.commitment_proof.scalar_commitment_for_signing()))"),
  # --- C09
- ("pedersen-ignore-last-coordinate", ["C09"], ZK+"lib.rs",
-  "        ts.iter().zip(us.iter()).map(|(&t, u)| t * u).sum::<X>()",
-  "        ts.iter().zip(us.iter()).take(N.max(4) - 0).skip(0).enumerate().filter(|(i, _)| N < 13 || *i != 12).map(|(_, (&t, u))| t * u).sum::<X>()"),
  # --- C12
- ("sigproof-challenge-drop-blinded-signature", ["C12", "C14"], ZK+"proofs/signature.rs",
-  "impl<const N: usize> ChallengeInput for SignatureProof<N> {\n    fn consume(&self, builder: &mut ChallengeBuilder) {\n        builder.consume(&self.blinded_signature);\n",
-  "impl<const N: usize> ChallengeInput for SignatureProof<N> {\n    fn consume(&self, builder: &mut ChallengeBuilder) {\n"),
  # --- C13
  ("range-drop-valid-digits", ["C13", "C02"], ZK+"proofs/range.rs",
   "        valid_digits && response_scalar == expected_response_scalar",
@@ -128,18 +99,26 @@ M = [
 
 # mutants that need more than one edit: (name, props, [(file, old, new), ...])
 MULTI = [
+ ("est-unhash-merchant-balance-scalar-both-sides", ["C01", "C12"], [
+   (AB+"proofs.rs", "            .with(&commitment_scalars[3])\n            .with(&commitment_scalars[4])\n", "            .with(&commitment_scalars[3])\n"),
+   (AB+"proofs.rs", "            .with(&self.customer_balance_commitment_scalar)\n            .with(&self.merchant_balance_commitment_scalar)\n", "            .with(&self.customer_balance_commitment_scalar)\n"),
+ ]),
+ ("est-drop-context-both-sides", ["C06", "C12"], [
+   (AB+"proofs.rs", "            .with(&close_state_proof_builder)\n            // Incorporate transcript context.\n            .with_bytes(&context.as_bytes())\n", "            .with(&close_state_proof_builder)\n"),
+   (AB+"proofs.rs", "            .with(&self.close_state_proof)\n            // Incorporate transcript context.\n            .with_bytes(context.as_bytes())\n", "            .with(&self.close_state_proof)\n"),
+ ]),
+ ("pay-unhash-close-tag-scalar-both-sides", ["C02", "C12"], [
+   (AB+"proofs.rs", "            .with(&old_pay_token_proof_builder.conjunction_commitment_scalars()[1])\n            .with(&close_state_proof_builder.conjunction_commitment_scalars()[1])\n", "            .with(&old_pay_token_proof_builder.conjunction_commitment_scalars()[1])\n"),
+   (AB+"proofs.rs", "            .with(&self.old_nonce_commitment_scalar)\n            .with(&self.close_tag_commitment_scalar)\n", "            .with(&self.old_nonce_commitment_scalar)\n"),
+ ]),
+ ("sigproof-challenge-drop-blinded-signature-both-sides", ["C12"], [
+   (ZK+"proofs/signature.rs", "impl<const N: usize> ChallengeInput for SignatureProofBuilder<N> {\n    fn consume(&self, builder: &mut ChallengeBuilder) {\n        builder.consume(&self.blinded_signature);\n", "impl<const N: usize> ChallengeInput for SignatureProofBuilder<N> {\n    fn consume(&self, builder: &mut ChallengeBuilder) {\n"),
+   (ZK+"proofs/signature.rs", "impl<const N: usize> ChallengeInput for SignatureProof<N> {\n    fn consume(&self, builder: &mut ChallengeBuilder) {\n        builder.consume(&self.blinded_signature);\n", "impl<const N: usize> ChallengeInput for SignatureProof<N> {\n    fn consume(&self, builder: &mut ChallengeBuilder) {\n"),
+ ]),
  ("revlock-ignore-blinding-factor", ["C05"], [
    (AB+"revlock.rs",
     "        self.0\n            .verify_opening(\n                parameters.revocation_commitment_parameters(),\n                revocation_lock_blinding_factor.0,\n                &Message::from(revocation_pair.lock.to_scalar()),\n            )\n            .into()",
     "        let _ = (parameters, revocation_lock_blinding_factor, &self.0);\n        // the pair was validated on construction\n        (revocation_pair.lock.to_scalar() == revocation_pair.lock.to_scalar()).into()"),
- ]),
- ("sigreq-return-scalar-commitment", ["C08", "C01"], [
-   (ZK+"proofs/signaturerequest.rs",
-    ".then(|| VerifiedBlindedMessage(self.commitment_proof.commitment()))",
-    ".then(|| VerifiedBlindedMessage(self.commitment_proof.scalar_commitment_pub()))"),
-   (ZK+"proofs/commitment.rs",
-    "    /// Get the commitment to the message\n    pub fn commitment(&self) -> Commitment<G> {",
-    "    /// Get the commitment to the commitment scalars.\n    pub(crate) fn scalar_commitment_pub(&self) -> Commitment<G> {\n        self.scalar_commitment\n    }\n\n    /// Get the commitment to the message\n    pub fn commitment(&self) -> Commitment<G> {"),
  ]),
  ("started-skip-close-signature-field", ["C20", "C03"], [
    (AB+"customer.rs",
@@ -148,11 +127,6 @@ MULTI = [
    (AB+"customer.rs",
     "impl Locked {\n    /// Unlock the channel",
     "fn default_bf() -> PayTokenBlindingFactor {\n    PayTokenBlindingFactor(zkchannels_crypto::BlindingFactor::new(&mut rand::thread_rng()))\n}\n\nimpl Locked {\n    /// Unlock the channel"),
- ]),
- ("pedersen-ignore-last-coordinate", ["C09"], [
-   (ZK+"lib.rs",
-    "        ts.iter().zip(us.iter()).map(|(&t, u)| t * u).sum::<X>()",
-    "        ts.iter()\n            .zip(us.iter())\n            .enumerate()\n            .filter(|(i, _)| N < 13 || *i != 12)\n            .map(|(_, (&t, u))| t * u)\n            .sum::<X>()"),
  ]),
 ]
 
